@@ -13,7 +13,8 @@ from experimaestro.xpmutils import DirectoryContext
 
 from xvschema import cfg as S
 
-CLS = {"K": S.K, "K2": S.K2, "K2Old": S.K2Old, "V": S.V, "LW": S.LW, "T": S.T, "T0": S.T0, "T1": S.T1, "G": S.G}
+CLS = {"K": S.K, "K2": S.K2, "K2Old": S.K2Old, "V": S.V, "LW": S.LW, "T": S.T, "T0": S.T0, "T1": S.T1, "G": S.G,
+       "PX": S.PX, "QX": S.QX, "N": S.N, "DH": S.DH}
 
 
 def pyval(v, objs):
@@ -41,25 +42,60 @@ def has_cfg(v):
     return v[0] == "cfg" or (v[0] == "list" and any(has_cfg(x) for x in v[1])) or (v[0] == "dict" and any(has_cfg(x) for _, x in v[1]))
 
 
+def maybe_tag(v, declared, rng):
+    """Tags do not enter identifiers; a tagged value may arrive with another Python type than the declared one"""
+    from experimaestro import tag
+
+    if rng is None or rng.random() > 0.15:
+        return v
+    if declared == "float" and float(v).is_integer() and rng.random() < 0.5:
+        return tag(int(v))
+    if declared == "int" and rng.random() < 0.5:
+        return tag(float(v))
+    return tag(v)
+
+
 def build(graph, rng=None, shuffle_dicts=False):
-    """graph: {node: {cls, vals, meta, pre, init, task}} -> {node: config object}"""
+    """graph: {node: {cls, vals, meta, pre, init, task[, dflt]}} -> {node: config object}.
+    A node flagged `dflt` is not constructed: it is the copy of a configuration-valued default that its (only)
+    parent received; `dflt` = "edited" assigns its values in place afterwards."""
     objs = {}
-    order = list(graph)
+    order = [n for n in graph if not graph[n].get("dflt")]
+    dflt_parent = {}
     if rng:
         rng.shuffle(order)
     for n in order:
         spec = graph[n]
         args = CLS[spec["cls"]].__getxpmtype__().arguments
-        kw = {a: pyval(v, objs) for a, v in spec["vals"].items()
-              if not has_cfg(v) and v[0] != "none" and not args[a].constant and not args[a].generator}
+        kw = {}
+        for a, v in spec["vals"].items():
+            if has_cfg(v) or v[0] == "none" or args[a].constant or args[a].generator:
+                continue
+            val = pyval(v, objs)
+            if v[0] in ("int", "float") and isinstance(val, (int, float)):
+                val = maybe_tag(val, v[0], rng)
+            kw[a] = val
         if rng:
             items = list(kw.items())
             rng.shuffle(items)
             kw = dict(items)
         objs[n] = CLS[spec["cls"]](**kw)
+        for a, v in spec["vals"].items():
+            if v[0] == "cfg" and graph[v[1]].get("dflt") and hasattr(args[a].default, "__xpm__"):
+                dflt_parent[v[1]] = (n, a)
+    for m, (n, a) in dflt_parent.items():
+        objs[m] = getattr(objs[n], a)
+    for m in dflt_parent:
+        if graph[m]["dflt"] == "edited":
+            margs = CLS[graph[m]["cls"]].__getxpmtype__().arguments
+            for a2, v2 in graph[m]["vals"].items():
+                if not margs[a2].constant and not margs[a2].generator:
+                    setattr(objs[m], a2, pyval(v2, objs))
     for n in order:
         spec = graph[n]
         for a, v in spec["vals"].items():
+            if v[0] == "cfg" and dflt_parent.get(v[1]) == (n, a):
+                continue
             if has_cfg(v):
                 val = pyval(v, objs)
                 if rng and shuffle_dicts and isinstance(val, dict):
@@ -69,7 +105,7 @@ def build(graph, rng=None, shuffle_dicts=False):
                 setattr(objs[n], a, val)
             elif v[0] == "none":
                 setattr(objs[n], a, None)
-    for n in order:
+    for n in graph:
         spec = graph[n]
         if spec["pre"]:
             objs[n].add_pretasks(*[objs[i] for i in spec["pre"]])
@@ -136,7 +172,7 @@ def rand_graph(rng, n=3, tasks=True):
     ids = [str(i + 1) for i in range(n)]
     g = {}
     for i in ids:
-        cls = rng.choice(["K", "K", "K", "K2", "K2Old", "V", "G", "G", "LW", "T0"] if tasks else ["K", "K", "K2", "V", "G"])
+        cls = rng.choice(["K", "K", "K", "K2", "K2Old", "V", "G", "G", "LW", "T0", "PX", "QX", "N", "DH"] if tasks else ["K", "K", "K2", "V", "G", "PX", "QX", "N"])
         vals = {}
 
         def ref():
@@ -167,6 +203,16 @@ def rand_graph(rng, n=3, tasks=True):
             vals["ll"] = ["list", [["list", [["int", rng.choice(INTS)] for _ in range(rng.choice([0, 1, 2]))]] for _ in range(rng.choice([0, 1, 2]))]]
             vals["s1"] = ["str", rng.choice(STRS)]
             vals["s2"] = ["str", rng.choice(STRS)]
+        elif cls in ("PX", "QX"):
+            vals["a"] = ["int", rng.choice([0, 1, 5])]
+            vals["c"] = ref() if rng.random() < 0.4 else ["none"]
+        elif cls == "N":
+            vals["ll"] = ["list", [["list", [ref() for _ in range(rng.choice([0, 1, 2]))]] for _ in range(rng.choice([0, 1, 2]))]]
+            vals["dl"] = ["dict", [[k, ["list", [ref() for _ in range(rng.choice([0, 1, 2]))]]] for k in rng.sample(KEYS, rng.choice([0, 1, 2]))]]
+            vals["ld"] = ["list", [["dict", [[k, ref()] for k in rng.sample(KEYS, rng.choice([0, 1, 2]))]] for _ in range(rng.choice([0, 1]))]]
+        elif cls == "DH":
+            vals["n"] = ["int", rng.choice([0, 1])]
+            vals["child"] = ["dflt"]     # resolved below
         elif cls == "G":
             vals["z"] = ref() if rng.random() < 0.7 else ["none"]
         elif cls == "LW":
@@ -176,6 +222,18 @@ def rand_graph(rng, n=3, tasks=True):
             vals["n"] = ["int", rng.choice([0, 1, 2])]
             vals["x"] = ref() if rng.random() < 0.5 else ["none"]
         g[i] = {"cls": cls, "vals": vals, "meta": rng.choice(["none", "none", "none", "true", "false"]), "pre": [], "init": [], "task": "0"}
+    # a configuration-valued default: left alone (the parent's own copy, possibly edited in place) or replaced by a K2 node
+    for i in ids:
+        if g[i]["cls"] == "DH":
+            k2s = [j for j in ids if g[j]["cls"] == "K2" and not g[j].get("dflt")]
+            how = rng.choice(["copy", "copy", "edited", "explicit"])
+            if how == "explicit" and k2s:
+                g[i]["vals"]["child"] = ["cfg", rng.choice(k2s)]
+            else:
+                m = i + "d"
+                g[m] = {"cls": "K2", "vals": {"a": ["int", 1 if how != "edited" else rng.choice([2, 3])], "c": ["none"], "v": ["int", 4]},
+                        "meta": "none", "pre": [], "init": [], "task": "0", "dflt": "edited" if how == "edited" else "copy"}
+                g[i]["vals"]["child"] = ["cfg", m]
     lws = [i for i in ids if g[i]["cls"] in ("LW", "T0")]
     for i in ids:
         if lws and rng.random() < 0.3:
